@@ -320,7 +320,7 @@ func genE2E(r *rand.Rand) cliIn {
 		for c := 1; c <= nc; c++ {
 			ctr := simpleCtr(fmt.Sprintf("id%d", c), fmt.Sprintf("n%d", c), []Frame{})
 			for j := 0; j < 3+r.Intn(5); j++ {
-				ctr.Frames = append(ctr.Frames, Frame{Typ: 1, TS: []int{sec, 0}, Msg: B(fmt.Sprintf("lvl=%s n=%d", []string{"a", "b", "c", "d"}[r.Intn(4)], j%3))})
+				ctr.Frames = append(ctr.Frames, Frame{Typ: 1, TS: []int{sec, 0}, Msg: B(fmt.Sprintf("lvl=%s n=%d a.b=%d a_b=%d", []string{"a", "b", "c", "d"}[r.Intn(4)], j%3, j%2, (j+1)%2))}) // a.b and a_b meet in one label name
 				sec++
 			}
 			in.Ctrs = append(in.Ctrs, ctr)
@@ -448,7 +448,7 @@ func genRender(r *rand.Rand) cliIn {
 			ts := []int{sec + r.Intn(6), []int{0, 0, 500000000, 123456789, 1}[r.Intn(5)]}
 			var msg []int
 			for m := r.Intn(6); m > 0; m-- {
-				msg = append(msg, []int{97, 98, 13, 10, 32, 27, 255, 10}[r.Intn(8)])
+				msg = append(msg, []int{97, 98, 13, 10, 32, 27, 255, 10, 37, 37, 115, 100}[r.Intn(12)]) // incl. % s d: a message is data, not a layout
 			}
 			if msg == nil {
 				msg = []int{}
@@ -472,6 +472,7 @@ type cmdCase struct {
 	Limit int       `json:"limit"`
 	Opts  []bool    `json:"opts"`
 	Q     []int     `json:"q"`
+	BadFlag []int   `json:"badflag"`
 }
 
 // fakeCli is a docker CLI of which only Client() is ever asked.
@@ -500,6 +501,9 @@ func probeCmd(tr *Trace, scn int, raw json.RawMessage) {
 		fmt.Sprintf("--timestamp=%v", in.Opts[0]), fmt.Sprintf("--container=%v", in.Opts[1]), fmt.Sprintf("--color=%v", in.Opts[2]), S(in.Q)}
 	if in.Limit < 0 && scn%3 == 0 {
 		args = append(args[:4:4], args[6:]...) // the default limit is "no limit"
+	}
+	if len(in.BadFlag) > 0 {
+		args = append(args[:len(args)-1:len(args)-1], S(in.BadFlag), args[len(args)-1])
 	}
 	tr.Ev(scn, "Args", F{"args_txt": fmt.Sprint(args)})
 	texts := []F{}
